@@ -1,6 +1,9 @@
 (* C11 — Character map lookup, enumeration and coverage agree.  Property theorems only. *)
 From TV Require Import Lib.GoNum Lib.Res Model.RuneSet Model.Cmap Spec.RuneSet Spec.Cmap Proofs.RuneSet Proofs.Cmap.
 From TV Require Import Proofs.RuneSetIncl Proofs.RuneSetSer Proofs.RuneSetRange Proofs.C11Compose.
+From TV Require Import Model.CmapSel Model.LangSet Model.Scripts Spec.CmapRemap Spec.CmapSel Spec.LangSet Spec.Scripts.
+From TV Require Import Proofs.CmapSan Proofs.CmapSel Proofs.LangSet Proofs.Scripts Proofs.C11Compose2.
+From TV Require Import Gen.C11Tables Gen.ScriptTable.
 
 (* ---- the rune-set container is a mathematical set ---- *)
 
@@ -24,17 +27,20 @@ Theorem runeset_contains : forall rs x, inv rs -> rsContains rs x = Ok (mem rs x
 Proof. exact contains_spec. Qed.
 Print Assumptions runeset_contains.
 
-(* inclusion: the merge loop never fails and is sound on all well-formed sets; it is complete when the included set
-   carries no all-zero page.  The unrestricted equivalence is false of the code: Findings/RuneSet.v
-   (includes_after_delete_refuted, known finding F23). *)
+(* inclusion: the merge loop never fails and decides inclusion of the sets of members, for ALL well-formed sets
+   (after the repair of includes, which ignores the all-zero pages Delete leaves behind; the former
+   runeset_includes_iff_partial needed `Forall page_nonempty b`) *)
 Theorem runeset_includes_sound : forall a b, inv a -> inv b ->
   exists v, rsIncludes a b = Ok v /\ (v = true -> forall x, rune_ok x -> mem b x = true -> mem a x = true).
 Proof. exact includes_total_sound. Qed.
 Print Assumptions runeset_includes_sound.
-Theorem runeset_includes_iff_partial : forall a b, inv a -> inv b -> Forall page_nonempty b ->
+Theorem runeset_includes_iff : forall a b, inv a -> inv b ->
   (rsIncludes a b = Ok true <-> forall x, rune_ok x -> mem b x = true -> mem a x = true).
-Proof. exact includes_iff_nonempty. Qed.
-Print Assumptions runeset_includes_iff_partial.
+Proof. exact includes_iff. Qed.
+Print Assumptions runeset_includes_iff.
+Theorem runeset_includes_total : forall a b, inv a -> inv b -> exists v, rsIncludes a b = Ok v.
+Proof. exact includes_total. Qed.
+Print Assumptions runeset_includes_total.
 
 (* Len is the number of members: there is a duplicate-free list of exactly the members whose length is Len *)
 Theorem runeset_len_is_cardinality : forall rs, inv rs ->
@@ -111,6 +117,161 @@ Theorem rune_ranges_eq_domain_cmap6or10 : forall s, wf_cmap6 s = true -> c6_entr
 Proof. exact rune_ranges6_eq_domain. Qed.
 Print Assumptions rune_ranges_eq_domain_cmap6or10.
 
+(* ---- the tables as the library builds them: no well-formedness hypothesis left, only the Go types ---- *)
+
+(* sanitizeCmap4 / sanitizeCmapGroups turn ANY typed table into a well-formed one, and leave a well-formed one unchanged *)
+Theorem sanitize_cmap4_wf : forall s, forallb ty_seg4 s = true -> wf_cmap4 (sanitize4 s) = true.
+Proof. exact sanitize4_wf. Qed.
+Print Assumptions sanitize_cmap4_wf.
+Theorem sanitize_cmap4_id : forall s, wf_cmap4 s = true -> sanitize4 s = s.
+Proof. exact sanitize4_id. Qed.
+Print Assumptions sanitize_cmap4_id.
+Theorem sanitize_cmap12_wf : forall is13 s, forallb ty_grp s = true ->
+  wf_cmap12_from is13 0 (sanitize12 s) = true /\ Forall (fun e => g_end e < 16777216) (sanitize12 s).
+Proof. exact sanitize12_wf. Qed.
+Print Assumptions sanitize_cmap12_wf.
+Theorem sanitize_cmap12_id : forall is13 s, wf_cmap12_from is13 0 s = true -> Forall (fun e => g_end e <= 1114111) s ->
+  sanitize12 s = s.
+Proof. exact sanitize12_id. Qed.
+Print Assumptions sanitize_cmap12_id.
+
+(* format 4 from the raw arrays (every uint16 quadruple list, every byte string): whenever newCmap4 accepts the table,
+   Iter = Lookup and coverage = Lookup domain on the sanitized segments *)
+Theorem iter_eq_lookup_cmap4_built : forall qs ga s, typed_quads qs -> typed_bytes ga -> new_cmap4 qs ga = Ok s ->
+  exists l, iter4 (sanitize4 s) = Ok l /\ iter_agrees l (lookup4 (sanitize4 s)).
+Proof. exact Proofs.C11Compose2.iter_eq_lookup_cmap4_built. Qed.
+Print Assumptions iter_eq_lookup_cmap4_built.
+Theorem coverage_exact_cmap4_built : forall qs ga s, typed_quads qs -> typed_bytes ga -> new_cmap4 qs ga = Ok s ->
+  exists rs, coverage_from_ranges (rune_ranges4 (sanitize4 s)) = Ok rs /\ inv rs /\
+             forall x, rune_ok x -> exists b, rsContains rs x = Ok b /\ (b = true <-> exists g, lookup4 (sanitize4 s) x = Ok (g, true)).
+Proof. exact Proofs.C11Compose2.coverage_exact_cmap4_built. Qed.
+Print Assumptions coverage_exact_cmap4_built.
+(* formats 12 / 13 from the raw groups (every list of uint32 triples) *)
+Theorem iter_eq_lookup_cmap12_built : forall gs, forallb ty_grp gs = true ->
+  iter_agrees (iter12 (sanitize12 gs)) (lookup12 (sanitize12 gs)).
+Proof. exact Proofs.C11Compose2.iter_eq_lookup_cmap12_built. Qed.
+Print Assumptions iter_eq_lookup_cmap12_built.
+Theorem iter_eq_lookup_cmap13_built : forall gs, forallb ty_grp gs = true ->
+  iter_agrees (iter13 (sanitize12 gs)) (lookup13 (sanitize12 gs)).
+Proof. exact Proofs.C11Compose2.iter_eq_lookup_cmap13_built. Qed.
+Print Assumptions iter_eq_lookup_cmap13_built.
+Theorem coverage_exact_cmap12_built : forall gs, forallb ty_grp gs = true ->
+  exists rs, coverage_from_ranges (rune_ranges12 (sanitize12 gs)) = Ok rs /\ inv rs /\
+             forall x, rune_ok x -> exists b, rsContains rs x = Ok b /\ (b = true <-> exists g, lookup12 (sanitize12 gs) x = Ok (g, true)).
+Proof. exact Proofs.C11Compose2.coverage_exact_cmap12_built. Qed.
+Print Assumptions coverage_exact_cmap12_built.
+
+(* format 0: for every decoding table and glyph array, Iter = Lookup; the last byte (>= 1) decoding to a rune wins *)
+Theorem iter_eq_lookup_cmap0 : forall decode ga, iter_agrees (iter0 (new_cmap0 decode ga)) (lookup0 (new_cmap0 decode ga)).
+Proof. exact iter0_eq_lookup0. Qed.
+Print Assumptions iter_eq_lookup_cmap0.
+Theorem cmap0_last_byte_wins : forall decode ga r g, length ga = 256%nat ->
+  (lookup0 (new_cmap0 decode ga) r = Ok (g, true) <->
+   exists b, 1 <= b < 256 /\ znth 0 decode b = r /\ znth 0 ga b = g /\ forall b', b < b' < 256 -> znth 0 decode b' <> r).
+Proof. exact new_cmap0_spec. Qed.
+Print Assumptions cmap0_last_byte_wins.
+
+(* the legacy remapers: for ANY wrapped cmap that enumerates what it looks up, the remaper enumerates what it looks up
+   (non-negative runes); symbol and legacy arabic instances *)
+Theorem remaper_iter_eq_lookup : forall wrapped remaper inner last,
+  total_lookup wrapped -> total_lookup remaper -> iter_agrees_nn inner wrapped ->
+  (forall r g, wrapped r = Ok (g, true) -> remaper r = Ok (g, true)) ->
+  (forall r g, rune_nn r -> remaper r = Ok (g, true) -> (exists g', wrapped r = Ok (g', true)) \/ 0 <= r <= last) ->
+  0 <= last < 2147483648 ->
+  exists l, remap_iter inner wrapped remaper last = Ok l /\ iter_agrees_nn l remaper.
+Proof. exact remap_iter_agrees. Qed.
+Print Assumptions remaper_iter_eq_lookup.
+Theorem symbol_remaper_iter_eq_lookup : forall inner_lookup inner, total_lookup inner_lookup -> iter_agrees_nn inner inner_lookup ->
+  exists l, remap_iter inner inner_lookup (remap_symbol inner_lookup) 255 = Ok l /\ iter_agrees_nn l (remap_symbol inner_lookup).
+Proof. exact remap_symbol_iter_agrees. Qed.
+Print Assumptions symbol_remaper_iter_eq_lookup.
+Theorem arabic_remaper_iter_eq_lookup : forall pua inner_lookup inner last,
+  total_lookup inner_lookup -> iter_agrees_nn inner inner_lookup -> 0 <= last < 2147483648 ->
+  (forall r, pua r <> 0 -> 0 <= r <= last /\ 0 < pua r < 2147483648 /\ pua (pua r) = 0) ->
+  exists l, remap_iter inner inner_lookup (remap_pua_fuel 2 pua inner_lookup) last = Ok l
+            /\ iter_agrees_nn l (remap_pua_fuel 2 pua inner_lookup).
+Proof. exact remap_pua_iter_agrees. Qed.
+Print Assumptions arabic_remaper_iter_eq_lookup.
+
+(* format 14: on a table ordered as the OpenType specification requires, GetGlyphVariant is the default / non-default /
+   not-found classification *)
+Theorem uvs_lookup_exact : forall t r sel, wf_uvs t = true -> get_glyph_variant t r sel = Ok (uvs_spec t r sel).
+Proof. exact uvs_lookup_spec. Qed.
+Print Assumptions uvs_lookup_exact.
+
+(* ---- ProcessCmap: for EVERY list of encoding records ---- *)
+(* the candidates are exactly the records of the supported formats (0, 4, 6, 10, 12, 13), in order *)
+Theorem process_cmap_candidates : forall decode recs cands uv, collect decode recs [] [] = Ok (cands, uv) ->
+  map cand_id cands = map rec_id (filter (fun r => is_candidate (snd r)) recs).
+Proof. exact collect_ids. Qed.
+Print Assumptions process_cmap_candidates.
+(* the chosen subtable is the first candidate carrying the first identifier of the documented preference order
+   (symbol; 32-bit; 16-bit) that is present, wrapped by the legacy remaper for the symbol identifier; the very first
+   candidate when none is present; an error exactly when there is no candidate *)
+Theorem process_cmap_choice : forall decode recs fp cands uv, collect decode recs [] [] = Ok (cands, uv) ->
+  (cands = [] /\ process_cmap decode recs fp = Err 3) \/
+  (exists res, process_cmap decode recs fp = Ok (res, uv) /\ right_choice cands fp res).
+Proof. exact Proofs.CmapSel.process_cmap_choice. Qed.
+Print Assumptions process_cmap_choice.
+Theorem process_cmap_error : forall decode recs fp e, collect decode recs [] [] = Err e -> process_cmap decode recs fp = Err e.
+Proof. exact process_cmap_err. Qed.
+Print Assumptions process_cmap_error.
+(* whatever ProcessCmap returns for typed subtables enumerates exactly what it looks up, each rune once (with the
+   Macintosh and legacy arabic tables regenerated from the library) *)
+Theorem process_cmap_iter_eq_lookup : forall recs fp cm uv,
+  Forall (fun r => typed_sub (snd r)) recs -> process_cmap macintosh_decode recs fp = Ok (cm, uv) ->
+  exists l, miter arabicPUASimp arabicPUATrad cm = Ok l /\ iter_agrees_nn l (mlookup arabicPUASimp arabicPUATrad cm).
+Proof. exact process_cmap_iter_agrees_table. Qed.
+Print Assumptions process_cmap_iter_eq_lookup.
+
+(* ---- language sets ---- *)
+Theorem langset_add_contains : forall ls l x, ls_ok ls -> 0 <= l -> 0 <= x ->
+  ls_ok (ls_add ls l) /\ ls_contains (ls_add ls l) x = ((x mod 512 =? l mod 512) || ls_contains ls x).
+Proof. exact ls_add_spec. Qed.
+Print Assumptions langset_add_contains.
+(* for every table of at most 512 well-formed rune sets and every coverage: language id is in the set iff the coverage
+   contains every rune of the table entry *)
+Theorem langset_exact : forall tab rs, inv rs -> Forall inv tab -> zlen tab <= 512 ->
+  exists ls, new_langset tab rs = Ok ls /\ ls_ok ls /\
+    (forall id, 0 <= id < zlen tab -> (ls_contains ls id = true <-> subset_of rs (nth (Z.to_nat id) tab []))) /\
+    (forall id, zlen tab <= id < 512 -> ls_contains ls id = false).
+Proof. exact Proofs.LangSet.langset_exact. Qed.
+Print Assumptions langset_exact.
+(* ... and at the library's languagesRunes (regenerated on every run) *)
+Theorem langset_exact_library : forall rs, inv rs ->
+  exists ls, new_langset lang_table rs = Ok ls /\ ls_ok ls /\
+    (forall id, 0 <= id < zlen lang_table -> (ls_contains ls id = true <-> subset_of rs (nth (Z.to_nat id) lang_table []))) /\
+    (forall id, zlen lang_table <= id < 512 -> ls_contains ls id = false).
+Proof. exact langset_exact_table. Qed.
+Print Assumptions langset_exact_library.
+
+(* ---- script sets ---- *)
+Theorem scriptset_insert : forall ss s, ss_sorted ss ->
+  exists ss', ss_insert ss s = Ok ss' /\ ss_sorted ss' /\ forall x, In x ss' <-> x = s \/ In x ss.
+Proof. exact ss_insert_spec. Qed.
+Print Assumptions scriptset_insert.
+Theorem scriptset_contains : forall ss s, ss_sorted ss -> (ss_contains ss s = true <-> In s ss).
+Proof. exact ss_contains_spec. Qed.
+Print Assumptions scriptset_contains.
+(* scriptsFromRanges on sorted disjoint ranges and any increasing disjoint script table starting at rune 0: the result
+   is exactly the set of scripts of the runes in the ranges (Unknown for runes in no table entry) *)
+Theorem scripts_from_ranges_exact : forall SR unknown ranges, sr_ok SR = true -> ranges_ok ranges = true ->
+  exists ss, scripts_from_ranges SR unknown ranges = Ok ss /\ ss_sorted ss /\
+             forall s, In s ss <-> exists x, in_ranges ranges x = true /\ script_of SR unknown x = s.
+Proof. exact Proofs.Scripts.scripts_from_ranges_exact. Qed.
+Print Assumptions scripts_from_ranges_exact.
+Theorem scripts_from_ranges_exact_library : forall ranges, ranges_ok ranges = true ->
+  exists ss, scripts_from_ranges ScriptRanges script_Unknown ranges = Ok ss /\ ss_sorted ss /\
+             forall s, In s ss <-> exists x, in_ranges ranges x = true /\ script_of ScriptRanges script_Unknown x = s.
+Proof. exact scripts_from_ranges_exact_table. Qed.
+Print Assumptions scripts_from_ranges_exact_library.
+(* the rune-by-rune path of newCoveragesFromCmap *)
+Theorem scripts_from_runes_exact : forall SR unknown runes,
+  exists ss, scripts_from_runes SR unknown runes [] = Ok ss /\ ss_sorted ss /\
+             forall s, In s ss <-> exists x, In x runes /\ script_of SR unknown x = s.
+Proof. exact Proofs.Scripts.scripts_from_runes_exact. Qed.
+Print Assumptions scripts_from_runes_exact.
+
 (* ---- non-vacuity ---- *)
 Example history_example : ops_ok [(0, 65); (0, 1114111); (1, 65); (0, 16777215)].
 Proof. repeat constructor; cbn; lia. Qed.
@@ -140,3 +301,40 @@ Example wf_cmap13_example : wf_cmap13 [mkGrp 0 1114111 7] = true.
 Proof. reflexivity. Qed.
 Example wf_cmap6_example : wf_cmap6 (mkCmap6 48 [1; 0; 3]) = true /\ c6_entries (mkCmap6 48 [1; 0; 3]) <> [].
 Proof. split; [reflexivity|discriminate]. Qed.
+Example typed_cmap4_example : exists s,
+  let qs := [(126, 32, 65507, 0); (162, 160, 7, 6); (100, 90, 0, 0); (65535, 65535, 1, 0)] in
+  typed_quads qs /\ typed_bytes [0; 5; 0; 0; 0; 9] /\ new_cmap4 qs [0; 5; 0; 0; 0; 9] = Ok s /\
+  sanitize4 s <> s /\ sanitize4 s <> [].
+Proof.
+  eexists. split; [repeat constructor|]. split; [repeat constructor; lia|]. split; [vm_compute; reflexivity|].
+  vm_compute. split; discriminate.
+Qed.
+Example ty_grp_example : forallb ty_grp [mkGrp 10 20 1; mkGrp 15 25 100; mkGrp 4294967295 0 7] = true
+                         /\ sanitize12 [mkGrp 10 20 1; mkGrp 15 25 100; mkGrp 4294967295 0 7] = [mkGrp 10 20 1].
+Proof. split; reflexivity. Qed.
+Example wf_uvs_example : wf_uvs [mkVarsel 65024 [(48, 9); (100, 0)] [(65, 7); (66, 8)]; mkVarsel 917760 [] [(65, 9)]] = true
+  /\ uvs_spec [mkVarsel 65024 [(48, 9); (100, 0)] [(65, 7); (66, 8)]; mkVarsel 917760 [] [(65, 9)]] 66 65024 = (8, VariantFound)
+  /\ uvs_spec [mkVarsel 65024 [(48, 9); (100, 0)] [(65, 7); (66, 8)]; mkVarsel 917760 [] [(65, 9)]] 57 65024 = (0, VariantUseDefault).
+Proof. repeat split; reflexivity. Qed.
+(* a table listing its records unsorted: the (3,10) format 12 subtable is chosen, not the BMP-only (3,1) format 4 one *)
+Example process_cmap_example :
+  let recs := [(3, 10, S12 [mkGrp 65 90 1; mkGrp 65536 65540 100]); (3, 1, S4 [(90, 65, 0, 0); (65535, 65535, 1, 0)] [])] in
+  Forall (fun r => typed_sub (snd r)) recs /\
+  process_cmap macintosh_decode recs 0 = Ok (M12 [mkGrp 65 90 1; mkGrp 65536 65540 100], []).
+Proof. split; [repeat constructor|vm_compute; reflexivity]. Qed.
+Example process_cmap_symbol_example :
+  process_cmap macintosh_decode [(3, 0, S4 [(61474, 61472, 7, 0)] [])] 0 = Ok (MSym (M4 [mkSeg4 61472 61474 7 None]), []).
+Proof. vm_compute. reflexivity. Qed.
+Example lang_table_example : 200 < zlen lang_table /\ exists rs id, inv rs /\ 0 <= id < zlen lang_table /\
+  new_langset lang_table rs <> Ok ls_empty.
+Proof.
+  split; [vm_compute; reflexivity|].
+  exists (nth 3 lang_table []), 3. split; [apply invb_inv; vm_compute; reflexivity|]. split; [vm_compute; split; [discriminate|reflexivity]|].
+  vm_compute. discriminate.
+Qed.
+Example scripts_example : sr_ok ScriptRanges = true /\
+  scripts_from_ranges ScriptRanges script_Unknown [(65, 90); (888, 889); (1024, 1030)]
+  = Ok [1132032620; 1281455214; 1517976186].
+Proof. split; vm_compute; reflexivity. Qed.
+Example ss_sorted_example : ss_sorted [1132032620; 1281455214; 1517976186].
+Proof. cbn. lia. Qed.
